@@ -33,6 +33,10 @@ ENG_A = "simio"
 ENG_B = "simnet"
 
 CHECKS = {
+ "C06": dict(level="exploration", engine=ENG_A, design="DESIGN.md §4 C06",
+   technique="deterministic simulation: the lazy reader and the collector are driven by seed-drawn API-call histories over a seekable simulated source (short reads, EINTR, first read from 1 byte up) and refined against the eager reader as reference model",
+   text="Seeded search over generated conforming files (three uncompressed syntaxes, nested sequences with defined/undefined lengths, native or encapsulated pixel data with empty/non-empty offset tables and zero-length fragments) x API-call histories x read segmentations. Lazy token stream (values fetched or skipped) must equal the eager token stream; the collector's meta group, union of portions split at arbitrary (present/absent) tags, separately read offset table and one-by-one fragments must equal the eagerly read object; read_until/read_to must give exactly the elements below / up to the tag.",
+   note="Reference model = dicom-rs' own eager reader on a plain slice (whose fidelity is checked by C01/C02). Inputs come from the independent encoder."),
  "C09": dict(level="exploration", engine=ENG_A, design="DESIGN.md §4 C09",
    technique="deterministic simulation: meta tables under seed-drawn operation histories written to a counting simulated sink and read back through short-reading sources; complete files read back with/without preamble through sources whose first read returns from 1 byte up, and by path",
    text="Seeded search over file meta tables (odd/even strings, every subset of optional fields, private information) x attribute-operation histories x transport segmentations. After every step the recorded group length must equal the bytes the sink accepted after the group-length element (independent parse: exactly group 0002 inside), and the table must read back equal. Complete files written by write_all must read back identically from a byte source with or without the 128-byte preamble under any read segmentation (first read from 1 byte up) and by path.",
